@@ -6,6 +6,7 @@ CONSTANT RestoreMode = "merge"
 CONSTANT MaxLog = 4
 CONSTANT MaxSnaps = 1
 CONSTANT MaxDowns = 0
+CONSTANT MaxFaults = 0
 CONSTANT MaxInstalls = 1
 VIEW View
 INVARIANT PrefixInv
